@@ -86,12 +86,12 @@ def NsMgr.validQ (m : NsMgr) (q : QName) : NsMgr × QName :=
     | none => let (m', n) := m.addNs ⟨q.ns.pfx, q.ns.uri⟩; (m', ⟨n, q.loc⟩)
 
 /-- URI compaction: first namespace in dict order whose URI is a string prefix;
-    local part = the string with *every* occurrence of that URI removed (`str.replace`). -/
+    local part = the rest of the string after that URI (`str_value[len(namespace.uri):]`). -/
 def compact (vals : List Ns) (s : String) : Option QName :=
   match vals with
   | [] => none
   | n :: rest =>
-    if sStartsWith s n.uri then some ⟨n, sRemoveAll s n.uri⟩ else compact rest s
+    if sStartsWith s n.uri then some ⟨n, sDropLen s n.uri⟩ else compact rest s
 
 /-- String path of `valid_qualified_name` within one manager (no parent). `none` = fall through. -/
 def NsMgr.resolveOwn (m : NsMgr) (s : String) : Option QName :=
